@@ -76,6 +76,12 @@ def gen_c13(rng, tier):
                     c.add("Q get %d" % (base + off))
         c.add("ITER iter " + "n" * (n + 3))
         c.add("ITER into " + "n" * min(n + 3, 50))
+        # exactly a whole number of 64/128/256-symbol groups consumed, then nth: a cached group must be reloaded
+        for g in (64, 128, 256, 127, 255):
+            if n > g + 2:
+                c.add("ITER %s %s" % (rng.choice(["iter", "into"]), "n" * g + rng.choice(["knnjnhn", "jnnknhn", "knknkn"])))
+        if n > 130:
+            c.add("ITER iter " + "j" * 16 + "nknjn")      # nth(7) x16 ends at position 128
         out.append(c)
     c = Case("c13-default", tags=dict(path="default", trivial=True))
     c.add("NEW qv u8 default 0")
@@ -621,6 +627,18 @@ def gen_c07(rng, tier):
         c.add("Q select1 0")
         c.add("Q select0 0")
         out.append(c)
+    # vectors longer than 2^31 / 2^32 bits, given by their positions only (about 0.5 GiB in the implementation; the
+    # position list itself is the oracle): dense and sparse groups below, across and beyond the 32-bit boundary
+    for j, edge in enumerate(sizes(tier, [2 ** 32], [2 ** 31, 2 ** 32, 2 ** 32 + 2 ** 31])):
+        pos = list(range(5, 5 + 1024))
+        p = edge - rng.choice([50000, 30000, 80000])
+        for gap, cnt in [(100, 1024), (2, 1024), (70, 1024), (1, 1024), (1000, 100)]:
+            for _ in range(cnt):
+                p += rng.randrange(gap // 2 + 1, gap + 2) if gap > 1 else 1
+                pos.append(p)
+        c = Case("c07-big%d" % j, model=False, tags=dict(kind="darray0", n=pos[-1] + 1, ones=len(pos), shape="beyond 2^%d" % (edge.bit_length() - 1), path="pos"))
+        c.add("FN dabig 0 %s" % " ".join(map(str, pos)))
+        out.append(c)
     # documented panic: positions not strictly increasing
     c = Case("c07-nonincr", tags=dict(kind="darray0", path="pos", trivial=True))
     c.add("NEW darray0 - pos 3 5 5 9")
@@ -702,6 +720,29 @@ def gen_c08(rng, tier):
         c.add("EQ m")
         c.add("CLONE")
         c.add("EQ m")
+        out.append(c)
+    # Clone::clone_from over a vector with other contents: afterwards the same vector as the source, counters
+    # included, and still a working mutable vector
+    for k in range(sizes(tier, 20, 100)):
+        bits, mix = C.gen_bits(rng, rng.choice([1, 64, 65, 511, 512, 513, 900]))
+        bits2, _ = C.gen_bits(rng, rng.choice([0, 1, 64, 70, 512, 600, 1500]))
+        kind = rng.choice(["bvm", "bvm", "bv"])
+        c = Case("c08-cf%d" % k, model=False, tags=dict(kind=kind, n=len(bits), mix=mix, start="clone_from"))
+        c.add(C.bits_line(kind, "bits", bits))
+        c.add("STORE a")
+        if rng.random() < 0.3:
+            c.add("NEW %s - default 0 -" % kind)
+        else:
+            c.add(C.bits_line(kind, "bits", bits2))
+        c.add("CLONEFROM a")
+        c.add("EQ a")
+        for q in ["Q len", "Q countones", "Q countzeros", "Q bits", "Q ones", "Q getwordall"]:
+            c.add(q)
+        if kind == "bvm":
+            c.add("OP push 1"); c.add("OP append 5 3"); c.add("OP set 0 1")
+            for q in ["Q len", "Q countones", "Q countzeros", "Q bits"]:
+                c.add(q)
+            c.add("EQ a")
         out.append(c)
     # two vectors with the same bits built differently compare equal
     for k in range(sizes(tier, 30, 150)):
@@ -1124,6 +1165,9 @@ def gen_c12(rng, tier):
                 c.add("ITER %s %s" % (src, "n" * (n + 4)))
                 c.add("ITER %s %s" % (src, hist("nkh", rng.choice([5, n + 3])) + "hnhnh" + "Khnh"))
                 c.add("ITER %s %s" % (src, "n" * n + "hnhnhkh"))
+                for g in (128, 256, 384):
+                    if n > g + 2:
+                        c.add("ITER %s %s" % (src, "n" * g + rng.choice(["knnjnhn", "jnnknhn"])))
         elif fam in ("bv", "bvm"):
             for src in ["iter", "into"]:
                 c.add("ITER %s %s" % (src, hist("nl", n + 5) + "nnll"))
@@ -1370,6 +1414,39 @@ def gen_c18(rng, tier):
             c.seq = a
             c.model = False
             out.append(c)
+    # symbols that agree in their low 8 / 16 / 20 / 24 / 32 bits asked alternately at the same positions: an answer
+    # remembered under part of the query only comes back for the wrong symbol
+    kk3 = 0
+    for kind in QWT_KINDS[:2] + HQ_KINDS[:2] + ["wt", "hwt"]:
+        for elem in sizes(tier, ["u32"], ["u32", "u64"]):
+            n = rng.choice([400, 1100])
+            lows = rng.sample(range(1, 200), 3)
+            # (Huffman-shaped trees keep a code table indexed by symbol: small symbols only there)
+            shifts = [8, 12, 16] if kind.startswith("h") else [8, 16, 20, 24] + ([32, 40] if elem == "u64" else [])
+            alpha = sorted(set(lows + [l + (1 << sh) * m for l in lows for sh in shifts for m in (1, 3)]))
+            a = [rng.choice(alpha) for _ in range(n)]
+            c = Case("c18-low%d" % kk3, tags=dict(kind=kind, elem=elem, n=n, mix="lowbits", cost=n * 20))
+            kk3 += 1
+            c.fam = "hq" if kind.startswith("hq") else "q" if kind.startswith("q") else "hw" if kind == "hwt" else "w"
+            c.add(C.new_line(kind, elem, "new", a))
+            flat = {"rank": [], "select": []}
+            for l in lows:
+                fam_syms = [x for x in alpha if (x - l) % 256 == 0]
+                for _ in range(3):
+                    i, kq = rng.randrange(n + 1), rng.randrange(12)
+                    for sy in fam_syms + fam_syms[::-1]:
+                        c.add("Q rank %d %d" % (sy, i))
+                        flat["rank"] += [str(sy), str(i)]
+                    for sy in fam_syms + fam_syms[::-1]:
+                        c.add("Q select %d %d" % (sy, kq))
+                        flat["select"] += [str(sy), str(kq)]
+            c.add("SER")
+            for op in ("rank", "select"):
+                c.add("TMIX 8 20 %s 2 %s" % (op, " ".join(flat[op][:160])))
+            c.add("SER")
+            c.seq = a
+            c.model = False
+            out.append(c)
     # select structures with neighbouring occurrence indices queried concurrently: bit vectors whose ones (zeros)
     # are spread so that in-block scans cross several words, every select structure
     kk = 0
@@ -1454,6 +1531,8 @@ def gen_c19(rng, tier):
             c.add("EQ a")
         c.add("CLONE")
         c.add("EQ a")
+        c.add(C.new_line("qv", "u8", "collect", [(x + 1) % 4 for x in s][: max(n // 2, 1)]))
+        c.add("CLONEFROM a"); c.add("EQ a"); c.add("Q len"); c.add("Q getall")
         for s2 in [tail_swap(rng, s), [x if i != n - 1 else (x + 1) % 4 for i, x in enumerate(s)],
                    [x if i != rng.randrange(n) else (x + 2) % 4 for i, x in enumerate(s)], s[:-1], s + [s[-1]]]:
             if s2 is not None and s2 != s:
@@ -1506,6 +1585,10 @@ def gen_c19(rng, tier):
                 if fam in ("hq", "hw"):
                     c.add("Q codes")
                 c.add("EQ u8")
+            # clone_from over a tree with other contents: the source's value and answers
+            c.add("CLONEFROM u8"); c.add("EQ u8"); c.add("Q len"); c.add("Q getall")
+            for sym in sorted(set(seq))[:3]:
+                c.add("Q rankall %d" % sym)
         c.model = False
         out.append(c)
     # quad / bit structures: construction paths compare equal
@@ -1532,6 +1615,7 @@ def gen_c19(rng, tier):
             if s3 is not None:
                 c.add(C.new_line(kind, "u64", "new", s3))
                 c.add("EQ a")
+            c.add("CLONEFROM a"); c.add("EQ a"); c.add("Q rankall %d" % rng.randrange(4)); c.add("Q selectall %d %d" % (s[0], s.count(s[0]) + 1))
         c.model = False
         out.append(c)
     for _ in range(sizes(tier, 50, 250)):
@@ -1568,6 +1652,27 @@ def gen_c19(rng, tier):
         if n:
             b2 = list(bits); b2[rng.randrange(n)] ^= 1
             c.add(C.bits_line(kind, "new" if kind in ("rsn", "rsw") or kind.startswith("darray") else "bits", b2)); c.add("EQ a")
+        c.add("CLONEFROM a"); c.add("EQ a")
+        if kind in ("bv", "bvm"):
+            c.add("Q countones"); c.add("Q countzeros"); c.add("Q len"); c.add("Q bits")
+        else:
+            c.add("Q select1all %d" % (sum(bits) + 1)); c.add("Q nones")
+            if kind != "darray1":
+                pass
+        # a mutable vector filled in two steps (first k bits, then extend / append of the rest): the same vector
+        if kind in ("bv", "bvm") and n:
+            for kcut in sorted(set([1, n // 2, max(n - 1, 1), rng.randrange(1, n + 1)])):
+                c.add(C.bits_line("bvm", "bits", bits[:kcut]))
+                rest = bits[kcut:]
+                if rng.random() < 0.5 or not rest:
+                    c.add("OP extbits %s" % ("".join(map(str, rest)) or "-"))
+                else:
+                    for i in range(0, len(rest), 64):
+                        ch = rest[i:i + 64]
+                        c.add("OP append %d %d" % (sum(b << j for j, b in enumerate(ch)), len(ch)))
+                if kind == "bv":
+                    c.add("OP toimm")
+                c.add("EQ a"); c.add("Q countones"); c.add("Q countzeros")
         c.model = False
         out.append(c)
     return out
